@@ -1969,7 +1969,7 @@ class GaussianTimeFluxProfile(
         t0 = 0.5*(self._t_stop + self._t_start)
         dt = t[m] - t0
 
-        values = np.zeros_like(t)
+        values = np.zeros_like(t, dtype=np.float64)
         values[m] = np.exp(-dt*dt/twossq)
 
         return values
